@@ -35,6 +35,28 @@ import collections
 Point = collections.namedtuple("Point", "x y")
 
 
+def make_handler(kind):
+    """two DIFFERENT classes with the same qualified name and different special methods"""
+    if kind == 0:
+        class Handler:
+            def __call__(self, z):
+                return ("called", z)
+    else:
+        class Handler:
+            def __len__(self):
+                return 3
+
+            def __iter__(self):
+                return iter([1, 2, 3])
+    return Handler()
+
+
+def use_handler(kind, h):
+    if h is None:
+        return None
+    return h(2) if kind == 0 else (len(h), list(h))
+
+
 def gen_tree(r, depth, counter, side=None):
     counter[0] += 1
     nid = counter[0]
@@ -74,16 +96,17 @@ class World:
 def run_local(root):
     w = World()
 
-    def run(t, value, ref, pt=None, fn=None, **kw):
+    def run(t, value, ref, pt=None, fn=None, h=None, **kw):
         w.log.append(t["id"])
-        w.shapes.append((t["id"], canon(value), list(ref), sorted(kw.items()), (pt.x, pt.y, pt.__class__.__name__) if pt is not None else None, fn(3) if fn is not None else None))
+        w.shapes.append((t["id"], canon(value), list(ref), sorted(kw.items()), (pt.x, pt.y, pt.__class__.__name__) if pt is not None else None, fn(3) if fn is not None else None,
+                         use_handler(t["id"] % 2, h)))
         ref.append(t["id"])                     # a change through the reference is a change to the caller's object
         acc = 0
         for k, c in t["kids"]:
             box = [k["id"] * 7]
             try:
                 kwargs = {"extra": k["id"], "flag": True} if k["kw"] else {}
-                v = run(k, w.payload(k), box, Point(k["id"], -1), (lambda z, kid=k["id"]: z + kid), **kwargs)
+                v = run(k, w.payload(k), box, Point(k["id"], -1), (lambda z, kid=k["id"]: z + kid), make_handler(k["id"] % 2), **kwargs)
                 acc += v
                 assert box[-1] == k["id"]
             except ValueError as e:
@@ -113,24 +136,28 @@ def run_remote(root):
 
     def make_service(side):
         class Svc(rpyc.Service):
-            def exposed_run(self, nid, value, ref, pt=None, fn=None, **kw):
-                return run(trees[nid], side, value, ref, pt, fn, **kw)
+            def exposed_run(self, nid, value, ref, pt=None, fn=None, h=None, **kw):
+                return run(trees[nid], side, value, ref, pt, fn, h, **kw)
         return Svc()
 
-    def run(t, side, value, ref, pt=None, fn=None, **kw):
+    def run(t, side, value, ref, pt=None, fn=None, h=None, **kw):
         w.log.append(t["id"])
-        w.shapes.append((t["id"], canon(value), list(ref), sorted(kw.items()), (pt.x, pt.y, pt.__class__.__name__) if pt is not None else None, fn(3) if fn is not None else None))
+        try:
+            hres = use_handler(t["id"] % 2, h)
+        except Exception as e:
+            hres = ("raised", type(e).__name__)
+        w.shapes.append((t["id"], canon(value), list(ref), sorted(kw.items()), (pt.x, pt.y, pt.__class__.__name__) if pt is not None else None, fn(3) if fn is not None else None, hres))
         ref.append(t["id"])
         acc = 0
         for k, c in t["kids"]:
             box = [k["id"] * 7]
             try:
                 kwargs = {"extra": k["id"], "flag": True} if k["kw"] else {}
-                pt, fn = Point(k["id"], -1), (lambda z, kid=k["id"]: z + kid)
+                pt, fn, h = Point(k["id"], -1), (lambda z, kid=k["id"]: z + kid), make_handler(k["id"] % 2)
                 if k["side"] == side:
-                    v = run(k, side, w.payload(k), box, pt, fn, **kwargs)
+                    v = run(k, side, w.payload(k), box, pt, fn, h, **kwargs)
                 else:
-                    v = ends[side].root.run(k["id"], w.payload(k), box, pt, fn, **kwargs)
+                    v = ends[side].root.run(k["id"], w.payload(k), box, pt, fn, h, **kwargs)
                 acc += v
                 if box[-1] != k["id"]:
                     raise AssertionError("mutation through the reference did not reach the caller's object")
